@@ -281,7 +281,8 @@ def run_clause(name, tier, seed, budget_s):
         if len(samples) < 3 and status == "ok" and r in nontrivial:
             samples.append(r[:400])
         if status == "fail":
-            if len(fails) < 25:
+            nk = sum(1 for f in fails if f["key"] == payload.key)
+            if nk < 3 and len(fails) < 60:      # a few witnesses per kind of failure, many kinds
                 fails.append({"clause": name, "property": cl.prop, "case": r, "msg": payload.msg,
                               "key": payload.key, "observed": _short(payload.observed),
                               "required": _short(payload.required)})
